@@ -74,6 +74,14 @@ def points(ctx):
     rng, tier = ctx["rng"], ctx["tier"]
     npts = 3 if tier == "quick" else 12
     pts = []    # (family, ty, [param strings])
+    # corners of the Beta box of envelope E: the smallest shape makes exp(v) overflow for the largest uniform draw (w = +inf, the guard
+    # anchored at beta.rs:253-262), the largest makes a * exp(v) overflow; placed first so that the quick tier's f32 sweep uses one of them
+    for ty in ("f32", "f64"):
+        lo, hi = (0.05, 1e4) if ty == "f64" else (0.2, 1e3)
+        for a, b in ((hi, lo), (lo, hi), (lo, lo), (1.0, lo)):
+            vals = (S.f_round(ty, a), S.f_round(ty, b))
+            if S.in_envelope("beta", ty, vals):
+                pts.append(("beta", ty, [S.f_bits(ty, v) for v in vals]))
     for fam in S.CONT_FAMILIES:
         for ty in ("f64", "f32"):
             got = 0
